@@ -250,6 +250,15 @@ class Widths:
         return False
 
 
+def _subst_topdown(e, target, repl):
+    """Replace every occurrence of the node `target` in e by `repl`, outermost first (children of a replaced node are not visited)."""
+    if e == target:
+        return repl
+    if not isinstance(e, tuple):
+        return e
+    return tuple(_subst_topdown(x, target, repl) if isinstance(x, tuple) else x for x in e)
+
+
 class Engine:
     py_bool_negations = None
 
@@ -393,6 +402,12 @@ class Engine:
             wf = self.wire_formula(e)
             if wf is not None:
                 return wf
+        if guard and not self.w.bit(e) and (e[0] == 'lin' or (e[0] == 'bin' and e[1] in ('%', '//', '-', '+', '*', '**')) or
+                                            (e[0] == 'nary' and e[1] in ('*', '&', '|', '^') and not self.may_be_signal(e))):
+            # truthiness of an integer expression:  if x % n:  ==  if x % n != 0:
+            z = self.norm(('cmp', '==', e, ('const', 0)))
+            if z[0] == 'cmp':
+                return f_not(self.atom(z))
         if self.w.bit(e) or guard:
             return self.atom(e)
         raise Undecided(f"not a Boolean expression: {ir.show(e)}")
@@ -627,16 +642,42 @@ class Engine:
             self._value_atoms(e[3], acc)
             return
         nested = [x for x in ir.walk(e) if x[0] in ('ifexp', 'phi')]
+        if nested and len(nested) > 4:
+            # too many generation-time choices to enumerate variants: take the atoms of every condition and of every
+            # choice-free one-bit sub-expression
+            for x in nested:
+                f_atoms(self._b(x[1], True), acc)
+            for x in ir.walk(e):
+                if x[0] not in ('ifexp', 'phi') and self.w.bit(x) and not any(y[0] in ('ifexp', 'phi') for y in ir.walk(x)):
+                    try:
+                        f_atoms(self._b(x), acc)
+                    except Undecided:
+                        pass
+            return
         if nested and len(nested) <= 4:
             # generation-time choices inside the expression: their conditions are atoms, and so are the bits of
             # every variant the choices can produce
             for x in nested:
                 f_atoms(self._b(x[1], True), acc)
-            for picks in itertools.product((2, 3), repeat=len(nested)):
-                table = dict(zip(nested, picks))
-                variant = self.norm(ir.subst(e, lambda x: x[table[x]] if x in table else None))
-                if not any(y[0] in ('ifexp', 'phi') for y in ir.walk(variant)):
-                    self._value_atoms(variant, acc)
+            def variants(x, budget=[32]):
+                # resolve choices outermost first (an inner choice may occur inside the condition or a branch of an outer one)
+                first = next((y for y in ir.walk(x) if y[0] in ('ifexp', 'phi')), None)
+                if first is None:
+                    yield x
+                    return
+                for br in (2, 3):
+                    if budget[0] <= 0:
+                        return
+                    budget[0] -= 1
+                    done = [False]
+
+                    def rep_(y, first=first, br=br, done=done):
+                        if not done[0] and y == first:
+                            return y[br]
+                        return None
+                    yield from variants(self.norm(_subst_topdown(x, first, first[br])))
+            for variant in variants(e):
+                self._value_atoms(variant, acc)
             return
         if self.w.bit(e):
             f_atoms(self._b(e), acc)
@@ -796,8 +837,11 @@ def compare(engine, got, want, assume=None):
         if assume is not None and not f_eval(assume, val):
             continue
         rows += 1
-        a = _pick(engine, got, val)
-        b = _pick(engine, want, val)
+        try:
+            a = _pick(engine, got, val)
+            b = _pick(engine, want, val)
+        except KeyError as ke:
+            raise Undecided(f"an atom of a nested generation-time choice was not enumerated ({ke}); the comparison is not decided")
         # "hold" of a one-bit register is its current value, which is an atom of the table whenever an expression mentions it
         # (q <= trg | (q & ~clr) written as one assignment instead of If/Elif)
         tgt = got.target if got.target is not None else want.target
